@@ -224,6 +224,8 @@ class ContractMixin:
         env = self.bind_args(st, c, args, kw, node, self_sv)
         # preconditions
         for cl in c.requires:
+            if cl.assumed:
+                continue      # protocol assumption, reported in the evidence (check.py: assumed_requires)
             t = self.eval_contract_expr(st, cl.expr, env, None, use_env=env)
             self.oblige(st, t, 'pre', '%s:%s' % (c.qualname.split('.')[-1], cl.label), node=node,
                         carries=cl.carries,
@@ -680,6 +682,8 @@ class ContractMixin:
             raise OutsideSubset('spec function %s arity' % name)
         bound = dict(zip(params, args))
         bound.update(kw)
+        if rec_sig is not None and self.fn_name in getattr(pyf, '_pyvc_inline_in', ()):
+            rec_sig = None       # opaque elsewhere, an ordinary (inlined) definition while verifying this function
         if rec_sig is not None:
             return self.call_recursive_spec(st, mod, name, fnode, rec_sig, bound, params)
         return self.inline_spec(st, mod, fnode, bound)
@@ -769,7 +773,14 @@ class ContractMixin:
                 body = self.inline_spec(st, mod, fnode, typed)
             finally:
                 self.rec_depth -= 1
-            st.fact(box(coerce(body, rty, self.classes)) == app)
+            bt = box(coerce(body, rty, self.classes))
+            st.fact(bt == app)
+            if rty == TBool and reveal is not None:
+                from .state import has_quantifier as _has_q
+                if _has_q(bt):
+                    # the direction that USES the application, in a form the instantiation of
+                    # quantified assumptions understands (a guarded conjunction of foralls)
+                    st.fact(z3.Implies(app, bt))
         return res
 
     def call_prim(self, st, name, args):
